@@ -114,17 +114,19 @@ Inductive preq := QDiscovery | QKeys | QAuthorize | QToken | QUserinfo | QIntros
                 | QEndSession | QDeviceAuthz | QDeviceToken (st : nat).
 Inductive rpcall := RAuthURL | RCodeExchange | RUserinfo | RRefresh | REndSession | RRevoke
                   | RClientCredentials | RDeviceAuthz | RGetters | RVerify.
+(* handler values the library hands out; r below is the request (its per-request data) *)
+Inductive hkind := HCodeExchange | HAuthURL | HRefresh | HOPAuthorize.
 Inductive ccall := CDiscover | CToken | CRevoke | CEndSession | CTokenExchange | CDeviceAuthz | CDeviceToken.
 
 Inductive op :=
 (* construction phase *)
 | NewProvider (i stor : nat) (opts : list popt)    (* op.NewProvider / NewOpenIDProvider / ... *)
 | NewLegacyServer (i : nat) (sl : nat)             (* RegisterLegacyServer(NewLegacyServer(p, *DefaultEndpoints), cb, sl...) *)
-| NewRPOIDC (i : nat) (sl : nat) (opts : list ropt)(* rp.NewRelyingPartyOIDC(..., scopes=sl, opts...) *)
+| NewRPOIDC (i : nat) (sl : nat) (t : val) (opts : list ropt) (* rp.NewRelyingPartyOIDC(issuer t, ..., scopes=sl, opts...) *)
 | NewRPOAuth (i cfg : nat) (opts : list ropt)      (* rp.NewRelyingPartyOAuth(cfg, opts...) *)
-| NewRS (i : nat) (c : option nat) (static : bool) (* rs.NewResourceServer*(…, WithClient c?, WithStaticEndpoints?) *)
-| NewTE (i : nat) (c : option nat) (static : bool) (* tokenexchange.NewTokenExchanger*(…) *)
-| NewKeySet (i c : nat)                            (* rp.NewRemoteKeySet(client c, url) *)
+| NewRS (i : nat) (c : option nat) (static : bool) (t : val) (* rs.NewResourceServer*(issuer t, …, WithClient c?, WithStaticEndpoints?) *)
+| NewTE (i : nat) (c : option nat) (static : bool) (t : val) (* tokenexchange.NewTokenExchanger*(issuer t, …) *)
+| NewKeySet (i c : nat) (t : val)                  (* rp.NewRemoteKeySet(client c, jwks url of issuer t) *)
 (* shared phase *)
 | ProvReq (i stor : nat) (q : preq)                (* one HTTP request served by provider / legacy server i *)
 | DevGetAudience (st : nat)                        (* DeviceAuthorizationState.GetAudience *)
@@ -132,19 +134,23 @@ Inductive op :=
 | RSIntrospect (i c : nat)                         (* rs.Introspect *)
 | TEExchange (i c : nat)                           (* tokenexchange.ExchangeToken *)
 | KSVerify (i c : nat)                             (* remoteKeySet.VerifySignature *)
-| ClientCall (c : nat) (k : ccall).                (* client.Discover / client.Call*Endpoint with a caller holding client c *)
+| ClientCall (c : nat) (k : ccall)                 (* client.Discover / client.Call*Endpoint with a caller holding client c *)
+| HandlerReq (i c : nat) (k : hkind) (r : nat).    (* request r served by a handler value of instance i: rp.CodeExchangeHandler /
+                                                      AuthURLHandler callback, an rp.RefreshTokens call, a provider authorize request.
+                                                      Its per-request data (code verifier, state, token) lives in the request, never in the
+                                                      handler value or the instance: the row has no write besides the mutex-protected cache *)
 
 Definition is_ctor (o : op) : bool :=
   match o with
-  | NewProvider _ _ _ | NewLegacyServer _ _ | NewRPOIDC _ _ _ | NewRPOAuth _ _ _
-  | NewRS _ _ _ | NewTE _ _ _ | NewKeySet _ _ => true
+  | NewProvider _ _ _ | NewLegacyServer _ _ | NewRPOIDC _ _ _ _ | NewRPOAuth _ _ _
+  | NewRS _ _ _ _ | NewTE _ _ _ _ | NewKeySet _ _ _ => true
   | _ => false
   end.
 Definition target (o : op) : nat :=
   match o with
-  | NewProvider i _ _ | NewLegacyServer i _ | NewRPOIDC i _ _ | NewRPOAuth i _ _
-  | NewRS i _ _ | NewTE i _ _ | NewKeySet i _ => i
-  | ProvReq i _ _ | RPCall i _ _ | RSIntrospect i _ | TEExchange i _ | KSVerify i _ => i
+  | NewProvider i _ _ | NewLegacyServer i _ | NewRPOIDC i _ _ _ | NewRPOAuth i _ _
+  | NewRS i _ _ _ | NewTE i _ _ _ | NewKeySet i _ _ => i
+  | ProvReq i _ _ | RPCall i _ _ | RSIntrospect i _ | TEExchange i _ | KSVerify i _ | HandlerReq i _ _ _ => i
   | DevGetAudience _ | ClientCall _ _ => 0
   end.
 
@@ -192,16 +198,16 @@ Definition effects (o : op) : list eff :=
   | NewLegacyServer i sl =>
       inst i FCors (SCopy (LG GCors)) :: copy_default_eps i
       ++ [inst i FSliceRef (SCopy (LSlice sl)); inst i FMisc (SConst 1)]
-  | NewRPOIDC i sl opts =>
+  | NewRPOIDC i sl t opts =>
       [inst i FCfg (SCopy (LSlice sl)); inst i FHTTP (SCopy (LG GHTTPClient)); inst i FAuthStyle (SConst 0)]
-      ++ flat_map (ropt_effs i) opts ++ [inst i FURL (SConst 1)] ++ rp_inits i
+      ++ flat_map (ropt_effs i) opts ++ [inst i FURL (SConst t)] ++ rp_inits i
   | NewRPOAuth i cfg opts =>
       [inst i FCfg (SCopy (LCfg cfg)); inst i FHTTP (SCopy (LG GHTTPClient));
        inst i FUnauthH (SCopy (LG GUnauthH)); inst i FAuthStyle (SConst 0)]
       ++ flat_map (ropt_effs i) opts ++ rp_inits i
-  | NewRS i c _ | NewTE i c _ =>
-      inst i FHTTP (SCopy (LG GHTTPClient)) :: opt_client i c ++ [inst i FURL (SConst 1); inst i FMisc (SConst 1)]
-  | NewKeySet i c => [inst i FHTTP (SConst (S c)); inst i FURL (SConst 1)]
+  | NewRS i c _ t | NewTE i c _ t =>
+      inst i FHTTP (SCopy (LG GHTTPClient)) :: opt_client i c ++ [inst i FURL (SConst t); inst i FMisc (SConst 1)]
+  | NewKeySet i c t => [inst i FHTTP (SConst (S c)); inst i FURL (SConst t)]
   | ProvReq _ stor q =>
       match q with
       | QDiscovery | QKeys | QUserinfo | QIntrospect => []
@@ -217,6 +223,7 @@ Definition effects (o : op) : list eff :=
   | RSIntrospect _ _ | TEExchange _ _ => []
   | KSVerify i _ => [EWrite (LLocked i) (SConst 1)]
   | ClientCall _ _ => []
+  | HandlerReq i _ k _ => match k with HCodeExchange | HRefresh => [EWrite (LLocked i) (SConst 1)] | _ => [] end
   end.
 
 Definition client_locs (c : nat) : list loc := map (LClient c) all_cfields.
@@ -229,10 +236,10 @@ Fixpoint rp_client (opts : list ropt) (acc : nat) : nat :=
 Definition extra_reads (o : op) : list loc :=
   match o with
   | NewProvider _ _ _ | NewLegacyServer _ _ => []
-  | NewRPOIDC _ _ opts => client_locs (rp_client opts 0)             (* client.Discover *)
+  | NewRPOIDC _ _ _ opts => client_locs (rp_client opts 0)           (* client.Discover *)
   | NewRPOAuth _ _ _ => []
-  | NewRS _ c static | NewTE _ c static => if static then [] else client_locs (ctor_client c)
-  | NewKeySet _ _ => []
+  | NewRS _ c static _ | NewTE _ c static _ => if static then [] else client_locs (ctor_client c)
+  | NewKeySet _ _ _ => []
   | ProvReq i stor q =>
       LLocked stor :: inst_locs i ++
       match q with
@@ -245,6 +252,7 @@ Definition extra_reads (o : op) : list loc :=
   | RSIntrospect i c | TEExchange i c => LG GEncoder :: inst_locs i ++ client_locs c
   | KSVerify i c => LLocked i :: inst_locs i ++ client_locs c
   | ClientCall c _ => LG GEncoder :: client_locs c
+  | HandlerReq i c _ _ => LLocked i :: LG GEncoder :: inst_locs i ++ client_locs c
   end.
 
 Definition writes (o : op) : list loc := map eloc (effects o).
@@ -263,13 +271,20 @@ Definition tids (o : op) : list nat :=
 Definition obs_reads (o : op) : list loc :=
   match o with
   | ProvReq i _ QDiscovery => map (fun e => LInst i (FEp e)) all_eps    (* advertised endpoints *)
-  | RPCall _ c _ | RSIntrospect _ c | TEExchange _ c | KSVerify _ c | ClientCall c _ =>
-      [LClient c CCheckRedirect]                                         (* are redirects followed? *)
+  | RPCall i c _ | RSIntrospect i c | TEExchange i c =>
+      [LClient c CCheckRedirect; LInst i FURL]         (* are redirects followed?  which issuer are requests / assertions addressed to? *)
+  | KSVerify i _ => [LInst i FURL]                     (* which issuer's tokens are accepted? *)
+  | ClientCall c _ => [LClient c CCheckRedirect]
   | _ => []
   end.
+(* the part of the behaviour that is a function of the request alone *)
+Definition const_result (o : op) : list val :=
+  match o with HandlerReq _ _ _ r => [S r] | _ => [] end.
 Definition obsval (l : loc) (v : val) : val :=
   match l with LClient _ CCheckRedirect => if v =? 0 then 0 else 1 | _ => v end.
-Definition result (o : op) (h : heap) : list val := map (fun l => obsval l (h l)) (obs_reads o).
+Definition result (o : op) (h : heap) : list val := const_result o ++ map (fun l => obsval l (h l)) (obs_reads o).
+(* the locations an operation's writes and result really depend on (a subset of its reads) *)
+Definition deps (o : op) : list loc := flat_map eff_reads (effects o) ++ obs_reads o.
 
 Definition run_ops (os : list op) (h : heap) : heap := fold_left (fun h o => apply o h) os h.
 
